@@ -664,3 +664,34 @@ package ugo
 //@ loop 1 invariant vm.curFrame == old(vm.curFrame)
 //@ split returns
 //@ property C02
+
+// ---------------------------------------------------------------------------
+// C06, second layer: the assumption of the recovery-path contracts
+// (vmPanicPoint holds wherever a panic can be raised) is itself checked on the
+// throw path and on the interpreter loop: `panics P` turns every safety
+// condition, every call into unknown code and every explicit panic into the
+// obligation "P holds here"; execution continues on the non-panicking paths.
+//@ func+ (*VM).throw
+//@ params vm err noTrace
+//@ results r
+//@ requires vmLoopInv(vm) && err != nil
+//@ ensures[handled] r == nil ==> vmLoopInv(vm)
+//@ panics vmPanicPoint(vm)
+//@ loop 0 invariant -1 <= index && index <= old(vm.frameIndex)-2 && frame == nil && vm.curFrame == old(vm.curFrame) && vm.frameIndex == old(vm.frameIndex) && vm.sp == old(vm.sp)
+//@ loop 0 invariant[parentfn] forall j int :: 0 <= j && j <= index ==> vm.frames[j].fn != nil
+//@ loop 0 invariant[parenth] forall j int :: 0 <= j && j <= index ==> specHSane(vm.frames[j].errHandlers)
+//@ loop 0 invariant[cur] specHSane(vm.curFrame.errHandlers) && vm.bytecode != nil
+//@ split returns
+//@ modifies *
+//@ property C06
+
+//@ func+ (*VM).handleThrownError
+//@ params vm frame err
+//@ results r
+//@ requires vmLoopInv(vm) && err != nil && frame == vm.curFrame && frame.errHandlers != nil && len(frame.errHandlers.handlers) >= 1
+//@ ensures[handled] r == nil ==> vmLoopInv(vm)
+//@ panics vmPanicPoint(vm)
+//@ loop 0 invariant vm.sp == old(vm.sp) && vm.curFrame == old(vm.curFrame) && vm.frameIndex == old(vm.frameIndex)
+//@ split returns
+//@ modifies *
+//@ property C06
